@@ -128,13 +128,13 @@ fn parse_duration(string: &str) -> GenericResult<Duration> {
     let captures = DURATION_RE.captures(string).ok_or(format!(
         "Invalid time duration specification: {:?}", string))?;
 
-    let mut duration = captures.name("number").unwrap().as_str().parse().unwrap();
-    duration *= match captures.name("unit").unwrap().as_str() {
+    let number: Option<u64> = captures.name("number").unwrap().as_str().parse().ok();
+    let duration = number.and_then(|number| number.checked_mul(match captures.name("unit").unwrap().as_str() {
         "m" => 60,
         "h" => 60 * 60,
         "d" => 60 * 60 * 24,
         _ => unreachable!(),
-    };
+    })).ok_or(format!("Invalid time duration specification: {:?}", string))?;
 
     Ok(Duration::from_secs(duration))
 }
